@@ -1,7 +1,7 @@
 /-
   C06/Driver — line protocol front end (core-only).
   request:  <op> <args…>      reply:  <model> <spec> <dev>
-    tostr  X L          String(x)               X = double bits, L = bits of math.Log10(|x|) observed
+    tostr  X L          String(x)               X = double bits (L = bits of math.Log10(|x|): no longer read by the code, ignored)
     fixed  X L A        x.toFixed(a)            A = `u` (undefined) or double bits
     exp    X A          x.toExponential(a)
     prec   X L A        x.toPrecision(a)
@@ -46,44 +46,44 @@ def L : Lib := Spec.exactLib
 def handle (ws : List String) : String :=
   match ws with
   | ["tostr", x, l] => match f64? x, f64? l with
-    | some x, some l =>
-      reply (resOut (.str (numToString L x l))) (resOut (.str (Spec.toStringNum x))) (Spec.Dev.toStr x l)
+    | some x, some _ =>
+      reply (resOut (.str (numToString L x))) (resOut (.str (Spec.toStringNum x))) (Spec.Dev.toStr x)
     | _, _ => "bad-op"
   | ["fixed", x, l, a] => match f64? x, f64? l, arg? a with
-    | some x, some l, some a =>
-      reply (resOut (toFixed L x l a)) (resOut (Spec.toFixed x a)) (Spec.Dev.fixed x l a)
+    | some x, some _, some a =>
+      reply (resOut (toFixed L x a)) (resOut (Spec.toFixed x a)) (Spec.Dev.fixed x a)
     | _, _, _ => "bad-op"
   | ["exp", x, a] => match f64? x, arg? a with
     | some x, some a =>
       reply (resOut (toExponential L x a)) (resOut (Spec.toExponential x a)) (Spec.Dev.exp x a)
     | _, _ => "bad-op"
   | ["prec", x, l, a] => match f64? x, f64? l, arg? a with
-    | some x, some l, some a =>
-      reply (resOut (toPrecision L x l a)) (resOut (Spec.toPrecision x a)) (Spec.Dev.prec x l a)
+    | some x, some _, some a =>
+      reply (resOut (toPrecision L x a)) (resOut (Spec.toPrecision x a)) (Spec.Dev.prec x a)
     | _, _, _ => "bad-op"
   | ["radix", x, l, a] => match f64? x, f64? l, arg? a with
-    | some x, some l, some a =>
+    | some x, some _, some a =>
       match Spec.toStringRadix x a with
-      | some s => reply (resOut (numberToString L x l a)) (resOut s) (Spec.Dev.radix x l a)
+      | some s => reply (resOut (numberToString L x a)) (resOut s) (Spec.Dev.radix x a)
       | none => "bad-op"
     | _, _, _ => "bad-op"
   | ["num", s] => match str? s with
-    | some s => reply (f64Out (stringToNumber s)) (f64Out (Spec.stringToNumber s)) (Spec.Dev.num s)
+    | some s => reply (f64Out (stringToNumber s)) (f64Out (Spec.stringToNumber s)) []
     | none => "bad-op"
   | ["pint", s, a] => match str? s, arg? a with
-    | some s, some a => reply (f64Out (parseInt s a)) (f64Out (Spec.parseInt s a)) (Spec.Dev.pint s a)
+    | some s, some a => reply (f64Out (parseInt s a)) (f64Out (Spec.parseInt s a)) (Spec.Dev.pint a)
     | _, _ => "bad-op"
   | ["pfloat", s] => match str? s with
-    | some s => reply (f64Out (parseFloat s)) (f64Out (Spec.parseFloat s)) (Spec.Dev.pfloat s)
+    | some s => reply (f64Out (parseFloat s)) (f64Out (Spec.parseFloat s)) []
     | none => "bad-op"
   | ["lit", s] => match str? s with
-    | some s => reply (optOut (literalValue s)) (optOut (Spec.literalValue s)) (Spec.Dev.lit s)
+    | some s => reply (optOut (literalValue s)) (optOut (Spec.literalValue s)) []
     | none => "bad-op"
   | ["istr", i] => match int? i with
     | some i => reply (resOut (.str (formatInt i 10))) (resOut (.str (Spec.toStringNum (ofInt i)))) (Spec.Dev.istr i)
     | none => "bad-op"
   | ["rt", x, l] => match f64? x, f64? l with
-    | some x, some l => reply (f64Out (stringToNumber (numToString L x l))) (f64Out (Spec.roundTrip x)) []
+    | some x, some _ => reply (f64Out (stringToNumber (numToString L x))) (f64Out (Spec.roundTrip x)) []
     | _, _ => "bad-op"
   | _ => "bad-op"
 
